@@ -123,8 +123,28 @@ class Exec:
         self.paths = 0
         self.extra_paths = []          # panic paths split off inside summaries
 
-    def find(self, rx):
+    KNOWN_RECEIVERS = ('Uniquness', 'ActiveFilter', 'SplitterProcess', 'SelectionProcess', 'PreSetProcessor', 'SortProcess', 'Limiter', 'GrouperProcess', 'Merger', 'JsonProcess', 'TextProcess',
+                       'TextPrinter', 'JsonOutputOptions', 'Reader', 'Master', 'Context', 'RegexCache', 'Titles')
+
+    def find(self, rx, hint=None):
         c = [n for n in self.fns if re.search(rx, n)]
+        if len(c) > 1 and hint:
+            # associated functions of two impl blocks of one module (`Uniquness::create_process` and that of a stage type an edit added):
+            # the impl block is identified by the receiver type of its methods
+            def span(n):
+                m = re.match(r'^(.*<impl at [^>]*>)::', n); return m.group(1) if m else None
+            def block_mentions(n):
+                sp = span(n)
+                for m2, f2 in self.fns.items():
+                    if sp and m2.startswith(sp + '::') and (any(re.search(r'\b%s\b' % re.escape(hint), ty) for _, ty in f2.params[:1]) or re.search(r'\b%s\b' % re.escape(hint), f2.ret or '')): return True
+                return False
+            hinted = [n for n in c if block_mentions(n)]
+            if len(hinted) == 1: c = hinted
+        if len(c) > 1:
+            # an edit added a second impl block with the same method name to the module (a new stage type): the scenarios mean the
+            # receiver they were written for
+            known = [n for n in c if self.fns[n].params and any(re.search(r'\b%s\b' % k, self.fns[n].params[0][1]) for k in self.KNOWN_RECEIVERS)]
+            if len(known) == 1: c = known
         if len(c) != 1:
             from .report import Broken
             raise Broken(f'MIR body lookup {rx!r} matched {len(c)} bodies: {c[:5]}')
